@@ -32,12 +32,18 @@ func (u *Unit) evalCall(st *State, call *ast.CallExpr) []Value {
 		fv := u.eval(st, call.Fun)
 		if cl, ok := u.closures[fv.term().S]; ok {
 			args := u.evalArgs(st, call, cl.info.TypeOf(cl.lit).(*types.Signature))
-			return u.inlineLit(st, cl, args)
+			u.closureAnchors(st, "before:"+c.Name(), call, args)
+			r := u.inlineLit(st, cl, args)
+			u.closureAnchors(st, "after:"+c.Name(), call, args)
+			return r
 		}
 		// a closure captured from the enclosing function (this unit is one of its literals)
 		if cl := u.capturedClosure(c); cl != nil {
 			args := u.evalArgs(st, call, cl.info.TypeOf(cl.lit).(*types.Signature))
-			return u.inlineLit(st, cl, args)
+			u.closureAnchors(st, "before:"+c.Name(), call, args)
+			r := u.inlineLit(st, cl, args)
+			u.closureAnchors(st, "after:"+c.Name(), call, args)
+			return r
 		}
 	case nil:
 		if lit, ok := ast.Unparen(call.Fun).(*ast.FuncLit); ok {
@@ -305,6 +311,7 @@ func (u *Unit) evalBuiltin(st *State, call *ast.CallExpr, name string) []Value {
 		}
 		n = Ite(Le(dst.slen(), sl), dst.slen(), sl)
 		elem := dst.T.Underlying().(*types.Slice).Elem()
+		var rows []Term
 		for _, l := range flatten(elem) {
 			key := mKey(typeKey(elem), l.Path)
 			arr := u.heapArr(st, key, ArrSort(SInt, ArrSort(SInt, l.Sort)))
@@ -322,6 +329,16 @@ func (u *Unit) evalBuiltin(st *State, call *ast.CallExpr, name string) []Value {
 			in := And(Le(dst.off(), j), Lt(j, Add(dst.off(), n)))
 			st.assume(Forall([]Term{j}, Eq(Select(nw, j), Ite(in, srcAt, Select(old, j)))))
 			st.heap[key] = Store(arr, dst.base(), nw)
+			rows = append(rows, nw)
+		}
+		// copy(a[:], src) with a an addressable array: the view was made from the array's contents at
+		// the same indices, so the written row is the array's new value
+		if se, ok := ast.Unparen(call.Args[0]).(*ast.SliceExpr); ok {
+			if at, ok := u.typeOf(se.X).Underlying().(*types.Array); ok && !isChunkID(u.typeOf(se.X)) && !opaqueNamed(u.typeOf(se.X)) {
+				lv := u.evalLV(st, se.X)
+				u.store(st, lv, Value{T: u.typeOf(se.X), L: rows})
+				_ = at
+			}
 		}
 		return []Value{intV(n)}
 	case "make":
@@ -1694,6 +1711,34 @@ func (u *Unit) runAnchorsNamed(st *State, anchor string, pos token.Pos, extra ma
 				rv.T = lv.T
 			}
 			u.store(st, lv, rv)
+		case "use":
+			sg, ok := c.Expr.(*SGo)
+			var call *ast.CallExpr
+			if ok {
+				call, ok = sg.E.(*ast.CallExpr)
+			}
+			if !ok {
+				panic(engineError(fmt.Sprintf("%s:%d: use@ needs axiomName(args)", shortFile(c.File), c.Line)))
+			}
+			name := exprText(call.Fun)
+			var ax *Axiom
+			for _, a := range u.eng.cf.Axioms {
+				if a.Name == name && !a.Lemma {
+					ax = a
+				}
+			}
+			if ax == nil {
+				panic(engineError(fmt.Sprintf("%s:%d: use@: no axiom %q", shortFile(c.File), c.Line, name)))
+			}
+			q, isQ := ax.Expr.(*SQuant)
+			if !isQ || !q.Forall || len(q.Vars) != len(call.Args) {
+				panic(engineError(fmt.Sprintf("%s:%d: use@: axiom %s does not take %d arguments", shortFile(c.File), c.Line, name, len(call.Args))))
+			}
+			for k, a := range call.Args {
+				env[q.Vars[k].Name] = u.specValAt(st, u.old, env, &SGo{E: a, Subs: sg.Subs}, c, pos)
+			}
+			ac := &Clause{Text: ax.Text, File: ax.File, Line: ax.Line}
+			st.assume(u.specBoolAt(st, u.old, env, q.Body, ac, pos))
 		case "assume":
 			t := u.specBoolAt(st, u.old, env, c.Expr, c, pos)
 			st.assume(t)
@@ -1710,4 +1755,16 @@ func (u *Unit) runAnchorsNamed(st *State, anchor string, pos token.Pos, extra ma
 			st.assume(t)
 		}
 	}
+}
+
+// closureAnchors runs the before:/after: anchors named after a closure variable ($a0.. are the arguments).
+func (u *Unit) closureAnchors(st *State, anchor string, call *ast.CallExpr, args []Value) {
+	if len(u.frames) != 1 {
+		return
+	}
+	extra := map[string]Value{}
+	for i, a := range args {
+		extra[fmt.Sprintf("$a%d", i)] = a
+	}
+	u.runAnchorsNamed(st, anchor, call.Pos(), extra)
 }
